@@ -1084,6 +1084,7 @@ var uFuncKinds = []string{"pb", "pt", "ib", "it"}
 type cell struct {
 	m *mCell
 	u *uCell
+	a *anyCell
 }
 
 // mScripts lists the method scripts of a marshal-side type: the base, every behaviour of the
@@ -1235,6 +1236,13 @@ func buildCells(w *run.W) []cell {
 			}
 		}
 	}
+	// (2b) functions on the types of untyped JSON: every list x value, API drawn per cell
+	for li := range anyLists {
+		for vi := range anyValues {
+			r := w.Rand("any", li, vi)
+			cells = append(cells, cell{a: &anyCell{List: li, Val: vi, API: pick(r, mAPIs)}})
+		}
+	}
 	// (3) sampled function lists of 1-3 entries (decoys included) with random behaviours, all types x positions
 	k := w.Pick(3, 40)
 	for _, t := range mTypes {
@@ -1340,7 +1348,10 @@ func generate(w *run.W) {
 		r := w.Rand("order", w.Shard, pass)
 		r.Shuffle(len(cells), func(i, j int) { cells[i], cells[j] = cells[j], cells[i] })
 		for i, c := range cells {
-			if c.m != nil {
+			if c.a != nil {
+				c.a.Ord, c.a.Shard = pass*len(cells)+i, w.Shard
+				w.Do("any", c.a)
+			} else if c.m != nil {
 				c.m.Ord, c.m.Shard = pass*len(cells)+i, w.Shard
 				w.Do("m", c.m)
 			} else {
@@ -1363,7 +1374,7 @@ var M = &run.Monitor{
 	Rule: "matrix: 81 marshal-side declared types {absent,value,pointer receiver}^{MarshalerTo,Marshaler,TextAppender,TextMarshaler} x 22 positions " +
 		"(top value/pointer, fields of addressable and by-value structs, slice/array elements, map keys/values, behind any, behind pointers, nil pointers) x every behaviour of the " +
 		"first two applicable representations; 27 unmarshal-side types {absent,value,pointer}^{UnmarshalerFrom,Unmarshaler,TextUnmarshaler} x 16 positions x behaviours x input kinds; " +
-		"caller function lists (on T, *T, interface; bytes and coder forms; decoys) exhaustive to length 2 for 3+3 types and sampled to length 3 for all; API route and option set drawn per cell. " +
+		"functions on string/float64/bool/[]any/map[string]any applied to untyped values (8 lists x 8 values); caller function lists (on T, *T, interface; bytes and coder forms; decoys) exhaustive to length 2 for 3+3 types and sampled to length 3 for all; API route and option set drawn per cell. " +
 		"Every worker runs the whole matrix in an order that depends on (seed, shard): 16 different cache histories. distinct = (type, position, script, function list[, input kind])",
 	Assumptions: []string{
 		"dispatch model transcribed from the Marshal/Unmarshal/MarshalerTo/UnmarshalerFrom/MarshalFunc/MarshalToFunc doc comments (cmd/c17/model.go)",
@@ -1388,6 +1399,7 @@ var M = &run.Monitor{
 		need("option_probes", 5000)
 		need("first_use_concurrent_calls", 2000)
 		need("err_popbelow", 300)
+		need("any_cells_with_function_calls", 50)
 		if c["matrix_cells_run"] != c["matrix_cells_expected"] {
 			u = append(u, fmt.Sprintf("matrix_cells_run=%d != matrix_cells_expected=%d", c["matrix_cells_run"], c["matrix_cells_expected"]))
 		}
@@ -1495,6 +1507,7 @@ func main() {
 	run.Def(M, "m", runM)
 	run.Def(M, "u", runU)
 	run.Def(M, "first", runFirst)
+	run.Def(M, "any", runAny)
 	M.Gen = generate
 	run.Main(M)
 }
